@@ -18,7 +18,6 @@ RULE = ("cases = (start, stop, dt in {1,1/2,1/4,1/5,1/8,1/10,1/20}, population, 
         "prescribes, with time = round + step*dt. non-trivial = 1/dt > 1 or the population changes during the run; distinct by case")
 ASSUMPTIONS = [
     "population changes are made in the model's end_round callback, or by an agent that removes itself or an agent created before it while it acts (all agents that were live at the start of the step still act once)",
-    "stop >= 1 (stop = 0 divides by zero in the progress computation and is outside the generated domain)",
     "for externally driven run_step only collect_data=True is generated (the 'final step' is a notion of whole runs)",
 ]
 
@@ -202,6 +201,7 @@ def check_case(case):
     pop = [{"name": t, "count": c} for t, c in case["pop"]]
     info = {}
     b = None
+    others = []
     try:
         if mode == "run-constructor":
             m = M(starttime=start, stoptime=stop, dt=dt, name="c12", scheduler=SimultaneousScheduler(), data_collector=Col())
@@ -211,12 +211,24 @@ def check_case(case):
             base = M(name="c12", scheduler=SimultaneousScheduler(), data_collector=Col())
             base.instantiate_model()
             b = bptk()
-            b.register_scenario_manager({"smABM": {"type": "abm", "model": base, "scenarios": {
-                "sc": {"runspecs": {"starttime": start, "stoptime": stop, "dt": dt}, "properties": {}, "agents": pop}}}})
+            scen = {"sc": {"runspecs": {"starttime": start, "stoptime": stop, "dt": dt}, "properties": {}, "agents": pop}}
+            if case.get("two_scenarios"):
+                # a second scenario of the same manager with a larger population, run in the same call
+                scen["sc2"] = {"runspecs": {"starttime": start, "stoptime": stop, "dt": dt}, "properties": {},
+                               "agents": [{"name": t, "count": c + 1} for t, c in case["pop"]]}
+            b.register_scenario_manager({"smABM": {"type": "abm", "model": base, "scenarios": scen}})
             m = b.get_scenario("smABM", "sc")
             # the deep copy must own its log
             m.__dict__["calllog"] = []
             m.data_collector.calllog = m.calllog
+            if case.get("two_scenarios"):
+                other = b.get_scenario("smABM", "sc2")
+                other.__dict__["calllog"] = []
+                other.data_collector.calllog = other.calllog
+                other.__dict__["gaps"] = gaps
+                other.__dict__["actdel"] = {int(k): v for k, v in case.get("actdel", {}).items()}
+                other.__dict__["gcount"] = 0
+                others.append((other, [a.id for a in other.agents], other.next_agent_id))
         else:
             m = M(name="c12", scheduler=SimultaneousScheduler(), data_collector=Col())
             m.instantiate_model()
@@ -232,12 +244,17 @@ def check_case(case):
                 for g in range(case["nsteps"]):
                     m.run_step(g, collect_data=True)
             elif mode == "bptk":
-                df = b.run_scenarios(scenarios=["sc"], scenario_managers=["smABM"], agents=["A"], agent_states=["active"],
+                df = b.run_scenarios(scenarios=["sc", "sc2"] if others else ["sc"], scenario_managers=["smABM"], agents=["A"], agent_states=["active"],
                                      return_format="df")
                 info["df_len"] = None if df is None else len(df)
                 if df is None or len(df) != len(want_times) or [float(x) for x in df.index] != want_times:
                     vs.append(Violation("bptk:statistics-times", "run_scenarios returned index %r, expected %r"
                                         % (None if df is None else list(df.index)[-4:], want_times[-4:])))
+            elif case.get("progress"):
+                import contextlib
+                import io
+                with contextlib.redirect_stdout(io.StringIO()):  # outside a notebook the progress bar is printed
+                    m.run(show_progress_widget=True, collect_data=case["collect"])
             else:
                 m.run(collect_data=case["collect"])
         except Exception as e:
@@ -254,6 +271,16 @@ def check_case(case):
         keys = list(m.statistics().keys())
         if keys != want_times:
             vs.append(Violation("statistics-keys", "agent_statistics keys %r expected %r" % (keys[-4:], want_times[-4:])))
+        for other, live_o, next_o in others:
+            want_o, times_o = _expected(case, live_o, next_o)
+            if other.calllog != want_o:
+                pos = next((i for i, (a, c) in enumerate(zip(other.calllog, want_o)) if a != c), min(len(other.calllog), len(want_o)))
+                vs.append(Violation("calllog:second-scenario", "call log of the second scenario differs at position %d: got %r expected %r (lengths %d / %d)"
+                                    % (pos, other.calllog[pos] if pos < len(other.calllog) else None, want_o[pos] if pos < len(want_o) else None,
+                                       len(other.calllog), len(want_o))))
+            if list(other.statistics().keys()) != times_o:
+                vs.append(Violation("statistics-keys:second-scenario", "agent_statistics keys of the second scenario %r expected %r"
+                                    % (list(other.statistics().keys())[-4:], times_o[-4:])))
     finally:
         if b is not None:
             b.destroy()
@@ -265,6 +292,10 @@ def _body(ctx):
         info, vs = check_case(case)
         nt = case["dt"] != 1 or bool(case.get("gaps")) or bool(case.get("actdel"))
         labels = ["mode:" + case["mode"], "dt:%s" % case["dt"], "collect:%s" % case["collect"]]
+        if case.get("two_scenarios"):
+            labels.append("two-scenarios-in-one-call")
+        if case.get("progress"):
+            labels.append("with-progress-display")
         if case.get("gaps"):
             labels.append("population-changes")
         if case.get("actdel"):
@@ -280,12 +311,16 @@ def case_strategy():
         mode = draw(st.sampled_from(["run-configure", "run-configure", "run-constructor", "steps", "bptk", "bptk-session"]))
         dt = draw(st.sampled_from(DTS))
         per = int(round(1 / dt))
-        start = draw(st.integers(0, 6))
-        stop = draw(st.integers(max(1, start), max(1, start) + draw(st.integers(0, 6))))
+        start = draw(st.integers(-4, 6))
+        stop = draw(st.integers(start, start + draw(st.integers(0, 6))))
         ntypes = draw(st.integers(1, 3))
         pop = [[t, draw(st.integers(1 if (mode in ("bptk", "bptk-session") and t == "A") else 0, 3))] for t in ["A", "B", "C"][:ntypes]]
         case = {"mode": mode, "start": start, "stop": stop, "dt": dt, "pop": pop,
                 "collect": True if mode in ("steps", "bptk", "bptk-session") else draw(st.booleans())}
+        if mode == "bptk":
+            case["two_scenarios"] = draw(st.booleans())
+        if mode in ("run-configure", "run-constructor"):
+            case["progress"] = draw(st.sampled_from([False, False, True]))
         if mode == "bptk-session":
             case["nsteps"] = draw(st.integers(1, 5))
             case["gaps"] = {}
